@@ -19,7 +19,8 @@ case "$CMD" in
     rsync -a --delete /verif/replays /verif/data /verif/KNOWN_FINDINGS.txt "$DIR/home/"
     ;;
   sync)
-    rsync -a --exclude target --exclude Cargo.toml /verif/harness/ "$DIR/harness/"
+    rsync -a --exclude target /verif/harness/ "$DIR/harness/"
+    sed -i "s|path = \"/repo\"|path = \"$DIR/repo\"|" "$DIR/harness/Cargo.toml"
     rsync -a --delete /verif/replays /verif/data /verif/KNOWN_FINDINGS.txt "$DIR/home/"
     ;;
   check)
